@@ -38,6 +38,7 @@ def generate(seed: int, tier: str = "quick") -> Dict[str, Any]:
         "pool": rc.choice([0, 0, 4, 8]),  # >0: expressions come from a small per-run pool (repeats)
         # override focus: programs that call size() with and without a host function named size
         "size_focus": rc.random() < 0.2,
+        "deep_share": rc.choice([0.0, 0.0, 0.0, 0.2]),
     }
     fault_kinds: List[str] = []
     if cfg["fault_class"] == "faults":
@@ -85,7 +86,8 @@ def generate(seed: int, tier: str = "quick") -> Dict[str, Any]:
             else:
                 text = gen.gen_expr(rw, decls, salt=rw.randrange(0, 3),
                                     host=[h for h in host if h != "size"],
-                                    size_focus=cfg["size_focus"])
+                                    size_focus=cfg["size_focus"],
+                                    deep_share=cfg["deep_share"])
                 text_pool.setdefault(pool_key, []).append(text)
             op = {"op": "K", "id": len(asts), "env": e["id"], "text": text, "host": host}
             asts.append({"id": op["id"], "env": e["id"], "host": host, "progd": False,
@@ -221,7 +223,7 @@ def exec_ops(ops: List[Dict[str, Any]]) -> Dict[str, Any]:
         val: Any = None
         try:
             with tracer:
-                fp, val = kit.outcome(fn)
+                fp, val = kit.outcome(fn, value=(kind == "V"))
         except SimAbort:
             rec["aborted"] = tracer.fired_site
         rec["steps"] = tracer.steps
@@ -492,7 +494,7 @@ def shrink(trace: Dict[str, Any], sig: Dict[str, Any], budget: int = 120) -> Dic
 
     def fails(ops: List[Dict[str, Any]]) -> bool:
         ops = _closure(ops)
-        if not ops:
+        if not ops or kit.expired():
             return False
         try:
             res = execute(dict(trace, ops=ops))
